@@ -392,11 +392,21 @@ def pytable(run, p):
             if owner is not None:
                 o.__self__ = owner()
             return o
-        return [Item(nm, fn('m', name=nm, **kw_)) for nm, kw_ in (
+        first = [Item(nm, fn('m', name=nm, **kw_)) for nm, kw_ in (
             ('test_in_tagged_class', dict(owner=TaggedCase)), ('test_tagged_method', dict(tagged=True, owner=PlainCase)),
             ('test_tagged_function', dict(tagged=True)), ('test_plain_function', {}), ('test_plain_method', dict(owner=PlainCase)))]
+        # a second module with a class and a function of the same names: other objects, to be named as well
+        second = [Item(nm, fn('m2', name=fnm, **kw_)) for nm, fnm, kw_ in (
+            ('m2_in_tagged_class', 'test_in_tagged_class', dict(owner=TaggedCase2)), ('m2_in_tagged_class_too', 'test_more', dict(owner=TaggedCase2)),
+            ('m2_tagged_function', 'test_tagged_function', dict(tagged=True)))]
+        for it in second:
+            it.name = it.obj.__name__
+        return first + second
+    TaggedCase2 = type('TaggedCase', (Model,), {'_tagged': True})
     is_tagged = {'test_in_tagged_class': True, 'test_tagged_method': True, 'test_tagged_function': True,
                  'test_plain_function': False, 'test_plain_method': False}
+    SECOND_LEFT = ['test_in_tagged_class', 'test_more', 'test_tagged_function']
+    SECOND_PRINT = ['m2.TaggedCase', 'm2.test_tagged_function']
     n = 0
     for rt, st in itertools.product((None, True), (None, True)):
         I = Interp(p)
@@ -414,13 +424,13 @@ def pytable(run, p):
             raise AnalysisError('referencepytest.tagged is not evaluable: %s' % e)
         left = [i.name for i in items]
         if not (rt or st):
-            want_left = sorted(is_tagged)
+            want_left = sorted(list(is_tagged) + SECOND_LEFT)
             want_print = []
         elif st:
             want_left = []
-            want_print = sorted(['m.TaggedCase', 'm.PlainCase', 'm.test_tagged_function'])
+            want_print = sorted(['m.TaggedCase', 'm.PlainCase', 'm.test_tagged_function'] + SECOND_PRINT)
         else:
-            want_left = sorted(k for k, v in is_tagged.items() if v)
+            want_left = sorted([k for k, v in is_tagged.items() if v] + SECOND_LEFT)
             want_print = []
         got_print = sorted(x for x in printed if x.strip())
         n += 1
